@@ -167,65 +167,188 @@ def check_rank(ctx):
            "self.rank.append(rank)", "ranks are appended; the latest is the current one", f2.lineno, nontrivial=False)
 
 
+def _resolve(fc, e, at, depth=0):
+    """Source of `e` with local names replaced by what they were last bound to (single reaching definition, plain or unpacked
+    from a subscript), up to a small depth: `idx = T[s]; x = NL[idx[0]][idx[1]]` reads as NL[T[s][0]][T[s][1]]."""
+    if depth > 4:
+        return norm_src(e)
+
+    class R(ast.NodeTransformer):
+        def visit_Name(self, n):
+            if not isinstance(n.ctx, ast.Load):
+                return n
+            ds, entry = fc.reaching(n.id, at)
+            if entry or len(ds) != 1:
+                return n
+            nd, r = ds[0]
+            if r[0] == "assign" and isinstance(r[1], (ast.Subscript, ast.Name)) and n.id not in ("node_list",):
+                return ast.parse(_resolve(fc, r[1], nd, depth + 1), mode="eval").body
+            if r[0] == "unpack" and isinstance(r[1], ast.Subscript) and isinstance(r[2], (ast.Tuple, ast.List)):
+                names = [norm_src(t) for t in r[2].elts]
+                if n.id in names:
+                    return ast.parse("%s[%d]" % (_resolve(fc, r[1], nd, depth + 1), names.index(n.id)), mode="eval").body
+            return n
+    import copy as _copy
+    return norm_src(R().visit(_copy.deepcopy(e)))
+
+
 def check_weights(ctx):
+    """R13-WEIGHT, stated as what must hold (not how it is written): at every pull the weight list and a parallel table of
+    records are rebuilt; for every depth h = 1..floor(log2 n) the layer is ranked first and then EVERY cell of the layer
+    contributes exactly one record and one weight 1/(h * its current rank * C), both unconditionally and in the same loop body
+    (so position k of the table and of the weights belong to the same cell); one position is drawn with
+    np.random.choice(<positions of the table>, p=weights) and the table is read at that position only."""
     model = ctx.model
     c = model.cls("VROOM")
     pull = model.own_method("VROOM", "pull")
     q = "VROOM.pull"
     ctx.fn(q)
+    fc = CS.FnCtx(model, E.Effects(model), "VROOM", pull)
     body = strip_doc(pull.body)
     loops = [s for s in body if isinstance(s, ast.For) and any(isinstance(x, ast.Call) and norm_src(x.func) == "self.prob.append" for x in ast.walk(s))]
     ok = False
     why = "weight loop not recognised"
+    table = None
+    record_kind = None
     if len(loops) == 1 and isinstance(loops[0].target, ast.Name) and norm_src(loops[0].iter) == "range(1, self.search_depth + 1)":
         L = loops[0]
         h = L.target.id
-        lines = [s for s in L.body]
-        rk = [s for s in lines if norm_src(s) == "self.rank(node_list[%s])" % h]
-        inner = [s for s in lines if isinstance(s, ast.For)]
-        cellvar = None
-        if len(rk) == 1 and len(inner) == 1 and isinstance(inner[0].target, ast.Tuple) and len(inner[0].target.elts) == 2 and \
-                norm_src(inner[0].iter) == "enumerate(node_list[%s])" % h:
-            # for l, cell in enumerate(node_list[h]): cell is node_list[h][l]
-            cellvar = norm_src(inner[0].target.elts[1])
-            inner[0] = ast.For(target=inner[0].target.elts[0], iter=ast.parse("range(len(node_list[%s]))" % h, mode="eval").body,
-                               body=inner[0].body, orelse=[])
-            ast.fix_missing_locations(inner[0])
-        if len(rk) == 1 and len(inner) == 1 and isinstance(inner[0].target, ast.Name):
-            l = inner[0].target.id
-            src = [norm_src(s) for s in inner[0].body]
-            want_idx = "index.append((%s, %s))" % (h, l)
-            T = SX.Translator(positive=True)
-            T.attr_cb = lambda e: T.sym(e.attr) if is_self_attr(e) else None
-            pa = [s for s in inner[0].body if isinstance(s, ast.Expr) and isinstance(s.value, ast.Call) and norm_src(s.value.func) == "self.prob.append"]
+        inner = [s for s in L.body if isinstance(s, ast.For)]
+        rk = [s for s in L.body if isinstance(s, ast.Expr) and isinstance(s.value, ast.Call) and norm_src(s.value.func) == "self.rank" and
+              len(s.value.args) == 1]
+        others = [s for s in L.body if s not in inner and s not in rk and not (isinstance(s, ast.Assign) and isinstance(s.targets[0], ast.Name))]
+        if len(inner) == 1 and len(rk) == 1 and not others and L.body.index(rk[0]) < L.body.index(inner[0]):
+            I = inner[0]
+            at = fc.node_of(rk[0])
+            lay = CS.layer_index(fc, rk[0].value.args[0], at)
+            ranked_h = lay is not None and norm_src(lay) == h
+            # the cells the inner loop visits: all cells of layer h, in order
+            it, tg = I.iter, I.target
+            cell_srcs, idx = set(), None
+            head = fc.node_of(I)
+            if isinstance(tg, ast.Name) and isinstance(it, ast.Call) and norm_src(it.func) == "range" and len(it.args) == 1 and \
+                    isinstance(it.args[0], ast.Call) and norm_src(it.args[0].func) == "len" and len(it.args[0].args) == 1:
+                lexpr = it.args[0].args[0]
+                l2 = CS.layer_index(fc, lexpr, head)
+                if l2 is not None and norm_src(l2) == h:
+                    idx = tg.id
+                    cell_srcs = {"%s[%s]" % (norm_src(lexpr), idx), "node_list[%s][%s]" % (h, idx)}
+            elif isinstance(tg, ast.Name):
+                l2 = CS.layer_index(fc, it, head)
+                if l2 is not None and norm_src(l2) == h:
+                    cell_srcs = {tg.id}
+            elif isinstance(tg, ast.Tuple) and len(tg.elts) == 2 and isinstance(it, ast.Call) and norm_src(it.func) == "enumerate" and len(it.args) == 1:
+                l2 = CS.layer_index(fc, it.args[0], head)
+                if l2 is not None and norm_src(l2) == h:
+                    idx = norm_src(tg.elts[0])
+                    cell_srcs = {norm_src(tg.elts[1]), "%s[%s]" % (norm_src(it.args[0]), idx), "node_list[%s][%s]" % (h, idx)}
+            # cell aliases defined in the body (node = layer[l])
+            temps = {}
+            for b in I.body:
+                if isinstance(b, ast.Assign) and len(b.targets) == 1 and isinstance(b.targets[0], ast.Name):
+                    if norm_src(b.value) in cell_srcs:
+                        cell_srcs.add(b.targets[0].id)
+                    else:
+                        temps[b.targets[0].id] = b.value
+            appends = [b for b in I.body if isinstance(b, ast.Expr) and isinstance(b.value, ast.Call) and isinstance(b.value.func, ast.Attribute) and
+                       b.value.func.attr == "append" and len(b.value.args) == 1]
+            rest = [b for b in I.body if b not in appends and not (isinstance(b, ast.Assign) and isinstance(b.targets[0], ast.Name))]
+            pa = [b for b in appends if norm_src(b.value.func) == "self.prob.append"]
+            ta = [b for b in appends if b not in pa and isinstance(b.value.func.value, ast.Name)]
+            whole = not any(isinstance(x, (ast.Break, ast.Continue, ast.Return)) for x in ast.walk(L))
             okw = False
-            if len(pa) == 1:
-                e = pa[0].value.args[0]
+            if cell_srcs and len(pa) == 1 and len(ta) == 1 and len(appends) == 2 and not rest and whole:
+                T = SX.Translator(positive=True)
+                T.attr_cb = lambda e: T.sym(e.attr) if is_self_attr(e) else None
 
                 class Sub(ast.NodeTransformer):
+                    def visit_Name(self, n):
+                        if n.id in temps and isinstance(n.ctx, ast.Load):
+                            return Sub().visit(ast.parse(norm_src(temps[n.id]), mode="eval").body)
+                        return n
+
                     def visit_Subscript(self, n):
-                        if norm_src(n) in ("node_list[%s][%s].get_rank()[-1]" % (h, l), "%s.get_rank()[-1]" % cellvar):
+                        if any(norm_src(n) == "%s.get_rank()[-1]" % cs for cs in cell_srcs):
                             return ast.Name(id="RANK", ctx=ast.Load())
                         return self.generic_visit(n)
-                got = T.tr(Sub().visit(ast.parse(norm_src(e), mode="eval").body))
-                okw = SX.equivalent(got, 1 / (T.sym(h) * T.sym("RANK") * T.sym("const")))[0] is True
-            ok = norm_src(inner[0].iter) == "range(len(node_list[%s]))" % h and want_idx in src and okw and len(inner[0].body) == 2
-            why = "for h in 1..D: rank(layer h); for l: index.append((h,l)); prob.append(1/(h*rank*C))" if ok else "inner loop is %s" % src
+                try:
+                    got = T.tr(Sub().visit(ast.parse(norm_src(pa[0].value.args[0]), mode="eval").body))
+                    okw = SX.equivalent(got, 1 / (T.sym(h) * T.sym("RANK") * T.sym("const")))[0] is True
+                except SX.Untranslatable as ex:
+                    why = "weight expression not understood: %s" % ex
+                table = ta[0].value.func.value.id
+                rec = ta[0].value.args[0]
+                if isinstance(rec, (ast.Tuple, ast.List)) and len(rec.elts) == 2 and norm_src(rec.elts[0]) == h:
+                    if idx is not None and norm_src(rec.elts[1]) == idx:
+                        record_kind = "index"
+                    elif norm_src(rec.elts[1]) in cell_srcs:
+                        record_kind = "cell"
+            ok = ranked_h and okw and record_kind is not None
+            if not ok and why == "weight loop not recognised":
+                why = ("layer ranked: %s; every cell of layer %s visited: %s; one record + one weight per cell: %s; weight = 1/(h*rank*C): %s; record: %s"
+                       % (ranked_h, h, bool(cell_srcs), len(pa) == 1 and len(ta) == 1 and not rest, okw, record_kind))
+            elif ok:
+                why = "for h in 1..D: rank(layer h); every cell: table.append((h, %s)); prob.append(1/(h*rank*C))" % ("position" if record_kind == "index" else "cell")
     ctx.ob("R13-WEIGHT", ok, c.file, q, "weight of a cell of depth h and rank r is 1/(h r C), over depths 1..floor(log2 n)", why, pull.lineno)
-    resets = [norm_src(s) for s in body if isinstance(s, ast.Assign) and norm_src(s.targets[0]) in ("index", "self.prob")]
-    ctx.ob("R13-WEIGHT", sorted(resets) == ["index = []", "self.prob = []"], c.file, q, "weights rebuilt at every pull", "%s" % resets, pull.lineno, nontrivial=False)
+    resets = [norm_src(s) for s in body if isinstance(s, ast.Assign) and norm_src(s.targets[0]) in (table or "index", "self.prob")]
+    ctx.ob("R13-WEIGHT", sorted(resets) == sorted(["%s = []" % (table or "index"), "self.prob = []"]), c.file, q, "weights rebuilt at every pull", "%s" % resets,
+           pull.lineno, nontrivial=False)
     # the draw
     draw = [s for s in body if isinstance(s, ast.Assign) and isinstance(s.value, ast.Call) and norm_src(s.value.func) == "np.random.choice"]
     okd = False
-    if len(draw) == 1:
+    tb = table or "index"
+    if len(draw) == 1 and isinstance(draw[0].targets[0], ast.Name):
         call = draw[0].value
         kw = {k.arg: norm_src(k.value) for k in call.keywords}
         a0 = norm_src(call.args[0]) if call.args else ""
-        okd = kw == {"p": "self.prob"} and a0 in ("[i for i in range(len(index))]", "range(len(index))", "len(index)", "list(range(len(index)))")
-        sv = norm_src(draw[0].targets[0])
-        follow = [s for s in body[body.index(draw[0]) + 1: body.index(draw[0]) + 2]]
-        okd = okd and len(follow) == 1 and isinstance(follow[0], ast.Assign) and norm_src(follow[0].value) == "index[%s]" % sv
-    ctx.ob("R13-WEIGHT", okd, c.file, q, "cell index drawn with np.random.choice(.., p=weights)", norm_src(draw[0]) if draw else "no draw", pull.lineno)
+        okd = kw == {"p": "self.prob"} and a0 in ("[i for i in range(len(%s))]" % tb, "range(len(%s))" % tb, "len(%s)" % tb, "list(range(len(%s)))" % tb,
+                                                  "np.arange(len(%s))" % tb)
+        sv = draw[0].targets[0].id
+        # the table is read at the drawn position only, and the cell the round continues with is the one that record denotes
+        reads = [x for x in ast.walk(pull) if isinstance(x, ast.Subscript) and isinstance(x.value, ast.Name) and x.value.id == tb and isinstance(x.ctx, ast.Load)]
+        okd = okd and bool(reads) and all(norm_src(x.slice) == sv for x in reads)
+        cn = [s for s in ast.walk(pull) if isinstance(s, ast.Assign) and any(is_self_attr(t, "curr_node") for t in s.targets)]
+        if okd and len(cn) == 1:
+            got = _resolve(fc, cn[0].value, fc.node_of(cn[0]))
+            want = {"index": "node_list[%s[%s][0]][%s[%s][1]]" % (tb, sv, tb, sv), "cell": "%s[%s][1]" % (tb, sv)}.get(record_kind)
+            okd = got == want
+        else:
+            okd = False
+    ctx.ob("R13-WEIGHT", okd, c.file, q, "cell drawn with np.random.choice(<positions>, p=weights); the round continues with the cell of the drawn record",
+           norm_src(draw[0]) if draw else "no draw", pull.lineno)
+
+
+def draw_info(fc, pull):
+    """(table, sample variable, record kind) of the draw: sample = np.random.choice(.., p=self.prob); the table is the local
+    list read at [sample]; its records are (depth, position in the layer) ['index'] or (depth, cell) ['cell']."""
+    draw = [s for s in ast.walk(pull) if isinstance(s, ast.Assign) and isinstance(s.value, ast.Call) and norm_src(s.value.func) == "np.random.choice" and
+            isinstance(s.targets[0], ast.Name)]
+    if len(draw) != 1:
+        return None
+    sv = draw[0].targets[0].id
+    tabs = {x.value.id for x in ast.walk(pull) if isinstance(x, ast.Subscript) and isinstance(x.value, ast.Name) and isinstance(x.ctx, ast.Load) and
+            norm_src(x.slice) == sv}
+    if len(tabs) != 1:
+        return None
+    tb = tabs.pop()
+    kind = None
+    for x in ast.walk(pull):
+        if isinstance(x, ast.Call) and norm_src(x.func) == "%s.append" % tb and len(x.args) == 1 and isinstance(x.args[0], (ast.Tuple, ast.List)) and \
+                len(x.args[0].elts) == 2:
+            second = x.args[0].elts[1]
+            lay = CS.layer_of(fc, second, fc.node_of(x))
+            k = "cell" if lay is not None and norm_src(lay) == norm_src(x.args[0].elts[0]) else "index"
+            if kind is not None and kind != k:
+                return None
+            kind = k
+    if kind is None:
+        return None
+    return tb, sv, kind
+
+
+def drawn_cell_src(info):
+    tb, sv, kind = info
+    return {"index": "node_list[%s[%s][0]][%s[%s][1]]" % (tb, sv, tb, sv), "cell": "%s[%s][1]" % (tb, sv)}[kind]
 
 
 def check_point(ctx):
@@ -249,9 +372,11 @@ def check_point(ctx):
     if len(inits) == 1:
         at = inits[0][0]
         ds, entry = fc.reaching(cur, at)
-        okd = not entry and len(ds) == 1 and ds[0][1][0] == "assign" and drawn_cell_expr(fc, ds[0][1][1], ds[0][0])
-        ctx.ob("R13-POINT", okd, c.file, q, "the chain starts at the drawn cell node_list[h][l] itself, (h, l) = index[sample]",
-               "%s" % [norm_src(r[1]) if r[0] == "assign" else r[0] for n, r in ds], at.line)
+        info = draw_info(fc, pull)
+        got = _resolve(fc, ast.parse(cur, mode="eval").body, at) if not entry and len(ds) == 1 else None
+        okd = info is not None and got is not None and got == drawn_cell_src(info)
+        ctx.ob("R13-POINT", okd, c.file, q, "the chain starts at the drawn cell itself (the cell of the drawn record)",
+               "%s is %s" % (cur, got) if got is not None else "%s" % [norm_src(r[1]) if r[0] == "assign" else r[0] for n, r in ds], at.line)
     ok, why = descent_loop(fc, pull, cur)
     ctx.ob("R13-POINT", ok, c.file, q, "descent to the depth cap: one random child per level while h < h_max", why, pull.lineno)
 
@@ -308,14 +433,23 @@ def descent_loop(fc, pull, cur):
     # the counter starts at the drawn cell's depth: first component of the drawn (depth, position) pair
     st = norm_src(start)
     okh = False
-    if isinstance(start, ast.Subscript) and norm_src(start.slice) == "0" and isinstance(start.value, ast.Name):
-        ds, entry = fc.reaching(start.value.id, fc.cfg.node_of(L))
-        okh = not entry and len(ds) == 1 and ds[0][1][0] == "assign" and norm_src(ds[0][1][1]).startswith("index[")
-    elif isinstance(start, ast.Name):
-        ds, entry = fc.reaching(start.id, fc.cfg.node_of(L))
-        ds = [d for d in ds if not any(d[0].ast is x for b in L.body for x in ast.walk(b))]
-        okh = not entry and len(ds) == 1 and ds[0][1][0] == "unpack" and norm_src(ds[0][1][1]).startswith("index[") and \
-            norm_src(ds[0][1][2].elts[0]) == start.id
+    info = draw_info(fc, pull)
+    if info is not None:
+        # resolved in front of the loop (the counter's own increments inside the loop are not definitions reaching the loop entry
+        # from outside; _resolve requires a single reaching definition, so resolve at the initialising statement's successor)
+        init_node = None
+        if isinstance(start, ast.Name):
+            ds0, e0 = fc.reaching(start.id, fc.cfg.node_of(L))
+            ds0 = [d for d in ds0 if not any(d[0].ast is x for b in L.body for x in ast.walk(b))]
+            if not e0 and len(ds0) == 1:
+                nd0, r0 = ds0[0]
+                if r0[0] == "assign":
+                    okh = _resolve(fc, r0[1], nd0) == "%s[%s][0]" % (info[0], info[1])
+                elif r0[0] == "unpack" and isinstance(r0[2], (ast.Tuple, ast.List)):
+                    names = [norm_src(t) for t in r0[2].elts]
+                    okh = start.id in names and "%s[%d]" % (_resolve(fc, r0[1], nd0), names.index(start.id)) == "%s[%s][0]" % (info[0], info[1])
+        else:
+            okh = _resolve(fc, start, fc.cfg.node_of(L)) == "%s[%s][0]" % (info[0], info[1])
     if not okh:
         return False, "the depth counter starts at '%s', which is not the depth component of the drawn index pair" % st
     # the child index is a fresh uniform draw over the children
